@@ -97,7 +97,7 @@ def build(cfg, cwd=HARNESS):
     os.makedirs(BUILD, exist_ok=True)
     t0 = time.time()
     try:
-        p = subprocess.run(cfg.build_cmd(), cwd=cwd, env=cfg.env(), stdout=subprocess.PIPE, stderr=subprocess.STDOUT, text=True, timeout=1800)
+        p = subprocess.run(cfg.build_cmd(), cwd=cwd, env=cfg.env(), stdin=subprocess.DEVNULL, stdout=subprocess.PIPE, stderr=subprocess.STDOUT, text=True, timeout=1800)
         ok = p.returncode == 0
         out = p.stdout
     except subprocess.TimeoutExpired as ex:
@@ -220,7 +220,7 @@ def run_job(job):
     t0 = time.time()
     timed_out = False
     try:
-        p = subprocess.Popen(job.cmd(), cwd=HARNESS, env=env, stdout=subprocess.PIPE, stderr=subprocess.PIPE, text=True, start_new_session=True)
+        p = subprocess.Popen(job.cmd(), cwd=HARNESS, env=env, stdin=subprocess.DEVNULL, stdout=subprocess.PIPE, stderr=subprocess.PIPE, text=True, start_new_session=True)
         try:
             out, err = p.communicate(timeout=job.timeout)
         except subprocess.TimeoutExpired:
